@@ -14,8 +14,9 @@ def free_port():
 class Gateway:
     """One gateway process. cfg: dict(meta='xattr'|'sidecar'|'nometa', otmp=bool, versioning=bool, readonly=bool,
     iam=bool, chown=bool). Several Gateway objects may share a Site (same root)."""
-    def __init__(self, binary, site, port=None, extra_env=None, global_args=(), trace=None):
+    def __init__(self, binary, site, port=None, extra_env=None, global_args=(), trace=None, mem_limit=None):
         self.binary, self.site = binary, site
+        self.mem_limit = mem_limit          # bytes of address space (RLIMIT_AS): a runaway allocation ends the process, not the sandbox
         self.port = port or free_port()
         self.extra_env = extra_env or {}
         self.global_args = list(global_args)
@@ -60,7 +61,12 @@ class Gateway:
         e = env()
         e.update(self.extra_env)
         self.logf = open(os.path.join(self.site.base, "gw-%d.log" % self.port), "ab")
-        self.proc = subprocess.Popen(self.argv(), env=e, stdout=self.logf, stderr=subprocess.STDOUT, cwd=self.site.base)
+        pre = None
+        if self.mem_limit:
+            import resource
+            lim = self.mem_limit
+            pre = lambda: resource.setrlimit(resource.RLIMIT_AS, (lim, lim))
+        self.proc = subprocess.Popen(self.argv(), env=e, stdout=self.logf, stderr=subprocess.STDOUT, cwd=self.site.base, preexec_fn=pre)
         for _ in range(400):
             if self.proc.poll() is not None:
                 raise RuntimeError("gateway exited at start: " + self.log_tail())
